@@ -94,15 +94,73 @@ pub fn run(reg: &dyn Registry, ctx: &Ctx) -> Outcome {
     for s in &results {
         add(&mut total, s);
     }
+    // deep stream positions (thorough): the same exploration started 1000 and 65536 blocks in
+    if ctx.tier == crate::evidence::Tier::Thorough {
+        let deep: Vec<Stats> = types
+            .par_iter()
+            .filter(|t| t.info().block_words.is_some())
+            .flat_map(|ty| {
+                let info = ty.info();
+                let bb = info.block_words.unwrap() * info.word_bits / 8;
+                [1000usize, 65536]
+                    .iter()
+                    .map(|&blocks| {
+                        let mk = DeepMaker { ty: *ty, seed: standard_seeds(*ty, ctx.seed)[1].clone(), skip_bytes: blocks * bb };
+                        let alphabet = histories::output_alphabet(info);
+                        let maxw = alphabet.iter().map(|o| match o { Op::Fill(n) => (*n + 3) / (info.word_bits / 8), _ => 2 }).max().unwrap();
+                        let d = 3;
+                        let words = info.block_words.unwrap() + 2 + d * (maxw + 1) + info.block_words.unwrap() + 16;
+                        explore_maker(&mk, d, ctx, "C05", &alphabet, words)
+                    })
+                    .collect::<Vec<_>>()
+            })
+            .collect();
+        for s in &deep {
+            add(&mut total, s);
+        }
+        ctx.set("deep_start_explorations", deep.len() as u64);
+    }
     // JitterRng with scripted non-stuck timers, rounds 1, 2, 3
     for rounds in [1u8, 2, 3] {
         for salt in 0..2u64 {
             let words = 4 + depth * 3 + 8;
             let readings = jitter_env::benign_readings(ctx.seed ^ (salt << 8) ^ rounds as u64, rounds, words, 8);
-            let mk = JitterMaker { reg, readings, rounds };
+            let mk = JitterMaker { reg, readings, rounds, init_pool: None };
             let alphabet = histories::output_alphabet(mk.info());
             let s = explore_maker(&mk, depth, ctx, "C05", &alphabet, words);
             add(&mut total, &s);
+        }
+    }
+    // value-directed start states: the pool is chosen (hook + linear solve) so that the first collected
+    // word has a special value: zero, a zero half, all ones, ...
+    for rounds in [1u8, 2] {
+        let d = depth.min(3);
+        let words = 4 + d * 3 + 8;
+        let readings = jitter_env::benign_readings(ctx.seed ^ 0x05CC ^ rounds as u64, rounds, words, 8);
+        for &target in jitter_env::SPECIAL_WORDS.iter() {
+            if let Some(p) = jitter_env::solve_pool_for_first_output(reg, &readings, rounds, target) {
+                let mk = JitterMaker { reg, readings: readings.clone(), rounds, init_pool: Some(p) };
+                let alphabet = vec![Op::U32, Op::U64, Op::Fill(3), Op::Fill(4), Op::Fill(8), Op::Fill(9)];
+                let s = explore_maker(&mk, d, ctx, "C05", &alphabet, words);
+                add(&mut total, &s);
+                ctx.add("jitter_value_directed_explorations", 1);
+            }
+        }
+    }
+    // JitterRng on timers with long runs of stuck measurements inside the second word (the native
+    // twin retries on the same readings, so the word stream is still well defined)
+    for k in [1usize, 9, 33, 70, 130, 260, 1030] {
+        for rounds in [1u8, 2] {
+            let per = jitter_env::readings_per_word(rounds);
+            let d = depth.min(3);
+            let words = 4 + d * 3 + 8;
+            let base = jitter_env::raw_readings(ctx.seed ^ 0x05AA ^ k as u64, per * words + 3 * k + 64);
+            let readings = jitter_env::with_stuck_run(&base, per + 5, k, crate::jitter_env::Dev::Repeat3);
+            let mk = JitterMaker { reg, readings, rounds, init_pool: None };
+            let alphabet = vec![Op::U32, Op::U64, Op::Fill(3), Op::Fill(8), Op::Fill(9), Op::Fill(12)];
+            let s = explore_maker(&mk, d, ctx, "C05", &alphabet, words);
+            add(&mut total, &s);
+            ctx.add("jitter_stuck_run_explorations", 1);
         }
     }
     ctx.set("states", total.states);
